@@ -80,9 +80,7 @@ _TIMEOUTS = {'n': 0}
 
 def impl(line):
     """after three watchdog time-outs every further model-stream call gets 50 ms instead of 2-10 s"""
-    if _TIMEOUTS['n'] >= 3 and not line.startswith('np.'):
-        with common.watchdog(0.05):
-            return _impl(line)
+    # (the framework's own patience ends after five confirmed time-outs: common.Run.call_impl)
     try:
         return _impl(line)
     except common.ImplTimeout:
